@@ -49,7 +49,7 @@ class C16(Scenario):
                    "positions whose constructor copies its argument (Bin flows and values, Fraction value, sparse value "
                    "templates) do not share an object afterwards and are control cases"]
     expected_faults = ["shared_node"]
-    expected_probes = ["shared_prefilled", "shared_used_in_other_tree", "shared_numpy_attempt", "control_shared_template"]
+    expected_probes = ["shared_prefilled", "shared_used_in_other_tree", "shared_numpy_attempt", "control_shared_template", "parent_prefilled", "explicit_bins_position"]
 
     # ------------------------------------------------------------------ generation
     def generate(self, rng, tier, profile):
@@ -61,7 +61,8 @@ class C16(Scenario):
         shared = profile == "shared"
         a = ref("S") if shared else S
         b = ref("S") if shared else copy.deepcopy(S)
-        pat = t.pick(["siblings", "siblings", "cousins-select", "cousins-coll", "uncle", "own-child", "deep"])
+        pat = t.pick(["siblings", "siblings", "cousins-select", "cousins-coll", "uncle", "own-child", "deep", "explicit-bins", "explicit-bins",
+                      "prefilled-parents", "prefilled-parents"])
         kind = t.pick(["Label", "UntypedLabel", "Index", "Branch"])
         other = {"p": "Count"}
         defs = {"S": S}
@@ -80,9 +81,35 @@ class C16(Scenario):
             # C is a child of the container P; P and C are both installed in the root
             defs = {"S": S, "P": {"p": "Branch", "values": [ref("S") if shared else S, other]}}
             tree = {"p": "UntypedLabel", "pairs": {"p": ref("P") if shared else defs["P"], "c": b}}
+        elif pat == "explicit-bins":
+            # IrregularlyBin / Stack built from explicit (edge, aggregator) pairs keep the caller's objects
+            kindb = t.pick(["IrregularlyBin", "Stack"])
+            slots = t.sample([0, 1, 2], 2)
+            pairs = [["-inf", other], [0.0, {"p": "Count"}], [1.5, {"p": "Count"}]]
+            where = t.pick(["both-inside", "inside-and-beside"])
+            if where == "both-inside":
+                pairs[slots[0]][1] = a
+                pairs[slots[1]][1] = b
+                tree = {"p": kindb, "explicit": pairs, "q": Q}
+            else:
+                pairs[slots[0]][1] = a
+                tree = {"p": "Branch", "values": [{"p": kindb, "explicit": pairs, "q": Q}, b] if t.chance(0.5) else [b, {"p": kindb, "explicit": pairs, "q": Q}]}
+        elif pat == "prefilled-parents":
+            # two containers that each hold S once are valid on their own and get filled on their own first
+            def parent(x):
+                k2 = t.pick(["select", "branch", "label", "index"])
+                if k2 == "select":
+                    return {"p": "Select", "q": QC, "cut": x}
+                if k2 == "branch":
+                    return {"p": "Branch", "values": [other, x]}
+                if k2 == "label":
+                    return {"p": "Label", "pairs": {"a": x}}
+                return {"p": "Index", "values": [x]}
+            defs = {"S": S, "P1": parent(ref("S") if shared else S), "P2": parent(ref("S") if shared else copy.deepcopy(S))}
+            tree = coll(t.pick(["Branch", "UntypedLabel"]), [ref("P1"), ref("P2")])
         else:
             tree = {"p": "Select", "q": QC, "cut": {"p": "Index", "values": [{"p": "Select", "q": QC, "cut": a}, {"p": "Select", "q": QC, "cut": b}]}}
-        if not shared and t.chance(0.5):
+        if not shared and t.chance(0.5) and pat not in ("prefilled-parents",):
             # shared *templates*: one unfilled object handed to constructors that copy it
             defs = {"S": S}
             mk = t.pick(["sparse", "cat", "bin", "flows"])
@@ -108,6 +135,11 @@ class C16(Scenario):
                 steps.append({"op": "prefill", "rec": s.randrange(len(recs)), "w": s.pick(specmod.POS_WEIGHTS)})
         if hist in ("othertree", "both"):
             steps.append({"op": "othertree", "kind": s.pick(["Branch", "UntypedLabel"]), "fills": [s.randrange(len(recs)) for _ in range(s.randint(1, 3))]})
+        if pat == "prefilled-parents":
+            for nm in ("P1", "P2"):
+                if s.chance(0.85):
+                    for _ in range(s.randint(1, 2)):
+                        steps.append({"op": "prefill", "who": nm, "rec": s.randrange(len(recs)), "w": s.pick(specmod.POS_WEIGHTS)})
         steps.append({"op": "buildtree"})
         for _ in range(s.randint(1, 4)):
             if s.chance(0.65):
@@ -124,7 +156,7 @@ class C16(Scenario):
         shared = case["shared"]
         objs = {}
         ctr = [0]
-        for name in ("S", "P"):
+        for name in ("S", "P", "P1", "P2"):
             if name in case["defs"]:
                 o = call(specmod.build, case["defs"][name], ctr, objs)
                 if not o.ok:
@@ -141,11 +173,15 @@ class C16(Scenario):
             if op == "prefill":
                 if tree is not None or st["rec"] >= len(w.records):
                     continue
-                o = call(S.fill, w.records[st["rec"]], st["w"])
+                target = objs.get(st.get("who", "S"))
+                if target is None:
+                    continue
+                o = call(target.fill, w.records[st["rec"]], st["w"])
                 if not o.ok:
-                    raise self.violation(exc_site(o.exc)[0], "fill", "exception:%s" % type(o.exc).__name__, "filling the node on its own raised %s" % o.describe(), si)
+                    raise self.violation(exc_site(o.exc)[0], "fill", "rejected-control:%s" % type(o.exc).__name__,
+                                         "filling a valid sub-tree on its own raised %s" % o.describe(), si)
                 hist += 1
-                w.bump("probe_shared_prefilled")
+                w.bump("probe_shared_prefilled" if st.get("who", "S") == "S" else "probe_parent_prefilled")
             elif op == "othertree":
                 if tree is not None:
                     continue
@@ -192,6 +228,8 @@ class C16(Scenario):
                 kinds.append(op)
                 after = snapshot_docs(w)
                 prim = case["tree"]["p"]
+                if "explicit" in repr(case["tree"]):
+                    w.bump("probe_explicit_bins_position")
                 if shared:
                     w.bump("fault_shared_node")
                     if o.ok:
